@@ -403,7 +403,12 @@ func (rt *runtime) convertCallParameter(v Value, t reflect.Type) (reflect.Value,
 				return vv.Addr(), nil
 			}
 
-			pv := reflect.New(vv.Type())
+			// allocate the pointee with the declared element type (for *interface{}
+			// the converted value has its dynamic type, e.g. float64)
+			pv := reflect.New(t.Elem())
+			if !vv.Type().AssignableTo(t.Elem()) {
+				return reflect.Zero(t), fmt.Errorf("can't convert to %s: %s is not assignable", t, vv.Type())
+			}
 			pv.Elem().Set(vv)
 			return pv, nil
 		}
